@@ -4,10 +4,11 @@ CONSTANTS
   Vals <- SmallVals
   Dflts <- SomeDflts
   Keys = {"a", "b"}
+  PathKeys <- PathKeysSim
   MaxHandles = 6
   MaxLen = 4
-  Ops <- AllOps
+  Ops <- SimOps
   EchoToks <- NoToks
   PushKeepsRefs = FALSE
   MaxHist = 10
-INVARIANTS TypeOK LiveHandlesResolve StoreLoadIdentity OneOwnerPerDoc OwnerAliveIffNotGone
+INVARIANTS PathSetIsFound TypeOK LiveHandlesResolve StoreLoadIdentity OneOwnerPerDoc OwnerAliveIffNotGone
